@@ -92,7 +92,8 @@ public:
     ///
     void set_max_search_space_size(Index max_search_space_size)
     {
-        m_max_search_space_size = max_search_space_size;
+        // As in the constructor, the search space cannot be larger than the matrix
+        m_max_search_space_size = (std::min)(max_search_space_size, m_matrix_operator.cols());
     }
     ///
     /// Sets how many correction vectors are added in each iteration
